@@ -19,7 +19,10 @@ def write_cfg(path, spec, constants, invariants=(), constraints=(), postconditio
     lines = ["SPECIFICATION %s" % spec, "CONSTANTS"]
     for k, v in constants.items():
         lines.append("  %s = %s" % (k, tla_value(v)))
-    for k, v in (subst or {}).items():
+    subst = dict(subst or {})
+    if "NSys" in constants:
+        subst.setdefault("AppRegs", "App_None")
+    for k, v in subst.items():
         lines.append("  %s <- %s" % (k, v))
     for i in invariants:
         lines.append("INVARIANT %s" % i)
